@@ -88,6 +88,21 @@ class Contract:
         """Run the real function natively; return dict(violated=[clause names], observed=...)."""
         return None
 
+    def search(self, case, tier, seed):
+        """Bounded search for an input on which the concrete contract fires (used when a counter-model
+        cannot be realised or does not reproduce)."""
+        if not hasattr(self, "bounded_inputs"):
+            return None
+        for inp in self.bounded_inputs(case, tier, seed):
+            try:
+                res = self.concrete_run(case, inp)
+            except Exception as e:   # noqa: BLE001
+                res = dict(violated=[f"harness exception {type(e).__name__}: {e}"], inputs=inp)
+            if res and res.get("violated"):
+                res.setdefault("inputs", inp)
+                return res
+        return None
+
 
 class Lemma:
     name = ""
